@@ -796,6 +796,9 @@ def evaluate(ctx, case):
     return line, v, pr, m
 
 
+SLOTS = [1, 1, 2, 2, 3, 4, 7, 8, 9, 15, 16, 17, 255, 256, 511]
+
+
 def gen(rng):
     n = rng.choice([2, 2, 3, 3, 3, 4])
     cfgs = []
@@ -803,7 +806,7 @@ def gen(rng):
         r = rng.random()
         naddr = rng.randrange(0, 4) if r < 0.85 else rng.choice([WINDOW_GROUPS - 1, WINDOW_GROUPS, WINDOW_GROUPS + 5, 2 * WINDOW_GROUPS])
         cfgs.append({"et": [rng.randrange(0x3000, 0x3003) for _ in range(rng.randrange(0, 4))],
-                     "fm": [rng.randrange(1, 5) for _ in range(rng.randrange(0, 4))],
+                     "fm": [rng.choice(SLOTS) for _ in range(rng.randrange(0, 4))],
                      "naddr": naddr, "attach_fails": rng.random() < 0.03})
     r = rng.random()
     if r < 0.6:
@@ -811,7 +814,7 @@ def gen(rng):
     elif r < 0.9:
         b = bytearray(64)
         for _ in range(rng.randrange(0, 5)):
-            k = rng.randrange(1, 12)
+            k = rng.choice(SLOTS)
             b[k // 8] |= 1 << (k % 8)
         fm0 = b.hex()
     else:
@@ -869,13 +872,14 @@ def kind_of(v, pr, m):
 
 
 def run(ctx):
-    cases = [dict(w) for w in WITNESSES.values()]
+    cases = []
     # every split point of the last-leaver race: P1 starts after k operations of P0 (k = 11 … 18), P0 continues afterwards
     for k in range(9, 19):
         for j in (3, 7, 14):
             cases.append({"cfgs": [C(), C(et=[12288], fm=[3])], "sched": [0] * k + [1] * j + [0] * 8 + [1] * 20, "fm0": None})
     for _ in range(ctx.n(500, 20000)):
         cases.append(gen(ctx.rng))
+    cases += [dict(w) for w in WITNESSES.values()]      # last: a new failure is first reported on a case the unchanged tree passes
     lines = []
     for c in cases:
         line, v, pr, m = evaluate(ctx, c)
